@@ -175,6 +175,18 @@ def check_meiosis(prog, rep, f, prop="C01"):
     ob = outer.body
     inner = [x for x in ob if isinstance(x, ast.For)]
     if len(inner) != 1:
+        # loop-free formulation: the copy carried by marker j is the parity of the number of crossover indices AT OR BEFORE j (the segment loop switches at the
+        # crossover index itself) = searchsorted(xoix, j, side='right') & 1; side='left' (numpy's default) counts strictly-before and realises every crossover one
+        # marker late - in an interval whose own crossover probability may be zero
+        ss = [n for st_ in ob for n in ast.walk(st_) if isinstance(n, ast.Call) and prog.dotted(f.module, n.func) == "numpy.searchsorted"]
+        if not inner and len(ss) == 1:
+            kw_, _ = kwargs_of(ss[0])
+            side = ss[0].args[2] if len(ss[0].args) > 2 else kw_.get("side")
+            if side is None or (isinstance(side, ast.Constant) and side.value == "left"):
+                V("R2-tiling", "the source copy of marker j is the parity of %s, which counts the crossover indices strictly BEFORE j (side='left'): every crossover is realised one "
+                  "marker late, so the copy can change at an interval whose crossover probability is zero" % dump(ss[0])[:60], ss[0], "searchsorted(..., side='right')",
+                  dump(ss[0])[:60])
+                return False
         U("R2-tiling", "expected one loop over the crossover indices")
         return False
     inner = inner[0]
